@@ -251,6 +251,14 @@ Definition krec (ws : list write) (s : ts) (d : det) : bool :=
                                         | DRolledBack => is_rollback w
                                         end) ws.
 Definition record_is (st : store) (k : key) (s : ts) (d : det) : bool := krec (writes_of st k) s d.
+(* locks are written with a positive TTL (client-go: defaultLockTTL 3 s / ManagedLockTTL 20 s at least) *)
+Definition ttl_cmd_ok (c : cmd) : bool :=
+  match c with
+  | Prewrite _ _ _ _ ttl _ _ => 0 <? ttl
+  | PessLock r => 0 <? p_ttl r
+  | _ => true
+  end.
+Definition ttl_discipline (cmds : list cmd) : bool := forallb ttl_cmd_ok cmds.
 Definition is_cts_for (k : key) (s : ts) (c : cmd) : bool :=
   match c with CheckTxnStatus k' s' _ _ _ _ => (k' =? k) && (s' =? s) | _ => false end.
 
